@@ -194,7 +194,8 @@ def install(ctx, repo, probes):
         for e in ("ext", "basic"):
             for z in ("Z", "hh", "hhmm"):
                 ctx.target("dump/%s/%s/%s" % (rep, e, z))
-    ctx.target("dump/bounds-error-legit")
+    ctx.target("dump/bounds-error-legit", "local/dst-rule-in-effect",
+               "local/dst-rule-not-in-effect")
     ctx.target("weekyear-rollover", "minutes-offset",
                "zero-hour-negative-minutes", "beyond-a-day")
 
@@ -222,7 +223,7 @@ def _eq_hash_zero(ctx, repo, mode, p, q):
 
 def run_case(ctx, repo, case):
     mode = case["mode"]
-    repo.set_mode(mode)
+    repo.set_mode(mode, case)
     try:
         op = case["op"]
         p = repo.tp(case["p"]) if "p" in case else None
@@ -240,6 +241,17 @@ def run_case(ctx, repo, case):
             m.altzone = -off
             m.daylight = 0
             m.localtime.return_value = mock.Mock(tm_isdst=0)
+            dst = case.get("dst")
+            if dst:
+                # a zone with a daylight rule: the alternative offset
+                # counts only while the platform says it is in effect
+                m.altzone = -dst["alt_seconds"]
+                m.daylight = 1
+                m.localtime.return_value = mock.Mock(tm_isdst=dst["isdst"])
+                ctx.cls("local/dst-rule-%s" % (
+                    "in-effect" if dst["isdst"] == 1 else "not-in-effect"))
+                if dst["isdst"] == 1:
+                    off = dst["alt_seconds"]
             ctx.local_offset = R.split_offset_seconds(off)
             with mock.patch.object(repo.timezone, "time", m):
                 q = p.to_local_time_zone()
@@ -407,6 +419,11 @@ def workload(ctx, repo):
                     "local_seconds": rng.choice(
                         (0, -1800, 20700, -12600, 49500, -8100,
                          60 * rng.randint(-1439, 1439)))}
+            if rng.random() < 0.6:
+                case["dst"] = {
+                    "alt_seconds": case["local_seconds"] + rng.choice(
+                        (3600, 1800, 7200, -3600)),
+                    "isdst": rng.choice((0, 1, 0, 1, -1))}
         else:
             case = make_dump_case(rng, mode)
         ctx.case = case
